@@ -3,7 +3,7 @@
 //!
 //!   rbv c11 reps                         representative characters of the 8 classes and the class the code gives them
 //!   rbv c11 feat                         ARABIC_FEATURES[action] for action 0..8
-//!   rbv c11 exh --maxlen L [--minlen M] [--chunk C]
+//!   rbv c11 exh --maxlen L [--minlen M] [--chunk C] [--nctx 9|73]
 //!                                        exhaustive: every sequence of length M..L over the representatives, with every
 //!                                        pre-/post-context of length 0 or 1; actions packed 20 per word (3 bits each)
 //!   rbv c11 random --seed S --n N        random longer sequences / contexts over many characters
@@ -63,8 +63,15 @@ fn feat() {
     }
 }
 
+/// context index: 0 = none, 1..=8 = one representative, 9..=72 = two representatives (logical order)
 fn ctx(k: usize) -> Vec<char> {
-    if k == 0 { vec![] } else { vec![REPS[k - 1].0] }
+    if k == 0 {
+        vec![]
+    } else if k <= 8 {
+        vec![REPS[k - 1].0]
+    } else {
+        vec![REPS[(k - 9) / 8].0, REPS[(k - 9) % 8].0]
+    }
 }
 
 fn seq_of(n: usize, mut idx: u64) -> Vec<char> {
@@ -128,11 +135,12 @@ fn exh(args: &[String]) {
     let maxlen = arg_u64(args, "--maxlen", 4) as usize;
     let minlen = arg_u64(args, "--minlen", 0) as usize;
     let chunk = arg_u64(args, "--chunk", 65536).max(20);
+    let nctx = arg_u64(args, "--nctx", 9) as usize; // 9: contexts of length 0/1; 73: also length 2
     let mut jobs: Vec<(usize, usize, usize, u64, u64)> = Vec::new();
     for n in minlen..=maxlen {
         let total = 8u64.pow(n as u32);
-        for pre in 0..9 {
-            for post in 0..9 {
+        for pre in 0..nctx {
+            for post in 0..nctx {
                 let mut s = 0;
                 while s < total {
                     let c = chunk.min(total - s);
